@@ -109,6 +109,9 @@ def join(cur, name):
     return name if cur == '' else (cur + name if cur.endswith('/') else cur + '/' + name)
 
 
+IMPLICIT3 = (('star', 3),)
+
+
 def ref_glob(model, seq, fl, limit=20000):
     """-> dict {path: 'must'|'may'} ; raises RecursionError-free, bounded by `limit` emitted paths."""
     ast = seq if fl.E else pat.desugar(seq)
@@ -118,7 +121,7 @@ def ref_glob(model, seq, fl, limit=20000):
     if absolute:
         raise ValueError('absolute patterns are handled by the caller')
     if ((fl.X and not has_sep) or fl.B) and segs:
-        segs = [(('star', 3 if (fl.L and fl.F) else 2),)] + list(segs)
+        segs = [(IMPLICIT3 if (fl.L and fl.F) else (('star', 2),))] + list(segs)
         pf = ref_aut.PathFlags(globstar=True, globstarlong=fl.L)
     out = {}
     n = len(segs)
@@ -163,8 +166,9 @@ def ref_glob(model, seq, fl, limit=20000):
             j = i
             while j + 1 < n and ref_aut.is_gstar(segs[j + 1], pf):
                 j += 1
-            k = segs[j][0][1]
-            follow = (fl.F and not fl.L) or k == 3
+            # consecutive globstars merge; the merged one follows links if any member (`***`) does
+            k = max(segs[x][0][1] for x in range(i, j + 1))
+            follow = (fl.F and not fl.L) or k == 3 or (segs[i] == IMPLICIT3)
             last = j == n - 1
             below = descend(cur, follow)
             if last:
